@@ -9,6 +9,7 @@ from ..core import call_attr, calls_in, dotted, kwarg, norm, slice_parts, text, 
 from . import c09
 
 EXPLANATION = [
+    'C07.stale-loopvar: no comprehension or generator expression in bumble.l2cap reads the variable of a `for` loop that has already finished (it would be the last item for every element): table registrations built from a list of channels key each channel by its own identifiers.',
     'C07.cid-alloc: a local channel identifier is allocated by scanning the very table the channel is then inserted into (keyed by own CIDs), whatever identifiers the peer chose (same rule as C09.cid-alloc).',
     'C07.credit-guard: every data frame sent by LeCreditBasedChannel.process_output '
     'is dominated by `credits > 0` and each loop iteration that sends a frame '
@@ -350,7 +351,13 @@ def cid_alloc(ctx):
     c09.cid_alloc(ctx, rule='C07.cid-alloc')
 
 
+def stale_loopvar_rule(ctx):
+    from ..stale_loopvar import stale_loopvar
+    stale_loopvar(ctx, 'C07.stale-loopvar', ['bumble.l2cap'])
+
+
 RULES = [
+    ('C07.stale-loopvar', stale_loopvar_rule),
     ('C07.cid-alloc', cid_alloc),
     ('C07.credit-guard', credit_guard),
     ('C07.bounds', bounds),
